@@ -161,6 +161,41 @@ FRAGS = [
           "filename.lower().endswith(('.hdf5', '.h5'))": ('extOk', 'Bool')},
          ignore=[r"^fileobj = open\(filename, 'rb'\)$", r'^sig = fileobj\.read\(8\)$'], props=['C09'],
          doc='`is_hdf5`'),
+    # ------------------------------------------------------------------ dendrogram.py: prune loop, _make_trunk
+    Frag('to_prune_yields', 'astrodendro/dendrogram.py', '_to_prune',
+         {'struct.is_leaf': ('isLeaf', 'Bool'), 'struct.idx not in keep_structures': ('(!alive)', 'Bool'),
+          'is_independent(struct)': ('indep', 'Bool'), 'parent is None': ('(!hasParent)', 'Bool')},
+         param_types={'alive': 'Bool', 'hasParent': 'Bool'},
+         select=lambda stmts: [s for w in stmts if isinstance(w, ast.While) for f_ in w.body if isinstance(f_, ast.For) for s in f_.body],
+         ignore=[r'^parent = struct\.parent$', r'^break$'], continue_value=('false', 'Bool'), yield_value=('true', 'Bool'),
+         props=['C07', 'C08'], doc='`_to_prune`: is the structure under the scan handed to the caller for merging? '
+                                  '(`continue` = no, `yield` = yes)'),
+    Frag('prune_merge_mode', 'astrodendro/dendrogram.py', 'Dendrogram.prune',
+         {'len(siblings)': ('nSib', 'Int'), 'copy.copy(siblings)': ('(2 : Int)', 'Int'), '[struct]': ('(1 : Int)', 'Int')},
+         init={'merge': ('(0 : Int)', 'Int')},
+         select=lambda stmts: [s for f_ in stmts if isinstance(f_, ast.For) and '_to_prune' in _src(f_.iter)
+                               for s in f_.body if isinstance(s, ast.If)],
+         outputs=['merge'], props=['C07', 'C08'],
+         doc='`prune`: what is merged into the parent of the failing leaf: 2 = both children (two-sibling rule), 1 = the leaf '
+             'alone, 0 = `merge` is not (re)assigned'),
+    Frag('trunk_drop', 'astrodendro/dendrogram.py', '_make_trunk',
+         {'is_independent(leaf)': ('indep', 'Bool')},
+         select=lambda stmts: [s for f_ in stmts if isinstance(f_, ast.For) and _src(f_.target) == 'leaf' for s in f_.body],
+         ignore=[r'^keep_structures\.pop\(leaf\.idx\)$', r'^dendrogram\.trunk\.remove\(leaf\)$'],
+         marks=[(r'^leaf\._fill_footprint\(dendrogram\.index_map, -1\)$', ('dropped', 'true', 'Bool'))],
+         outputs=['dropped'], init={'dropped': ('false', 'Bool')},
+         props=['C01', 'C05', 'C07'], doc='`_make_trunk`: is a parentless leaf removed? (marked by its footprint being filled with -1)'),
+    # ------------------------------------------------------------------ analysis.py: edge-wrap heuristic of _make_catalog
+    Frag('wrap_elem', 'astrodendro/analysis.py', '_make_catalog',
+         {'index_array': ('x', 'Int'), 'shape': ('n', 'Int')},
+         select=lambda stmts: [s for n_ in stmts for s in ast.walk(n_) if isinstance(s, ast.Assign) and _src(s.targets[0]) == 'i2'][:1],
+         outputs=['i2'], props=['C12'],
+         doc='`_make_catalog`: one element of the candidate index array (`np.where` element-wise; `x < n/2` is `2x < n`)'),
+    Frag('wrap_use', 'astrodendro/analysis.py', '_make_catalog',
+         {'np.ptp(i2)': ('ptpNew', 'Int'), 'np.ptp(index_array)': ('ptpOld', 'Int')},
+         select=lambda stmts: [s for n_ in stmts for s in ast.walk(n_) if isinstance(s, ast.If) and 'np.ptp(i2)' in _src(s.test)][:1],
+         marks=[(r'^index_array\[:\] = i2$', ('used', 'true', 'Bool'))], outputs=['used'], init={'used': ('false', 'Bool')},
+         props=['C12'], doc='`_make_catalog`: is the candidate taken? (marked by the in-place assignment)'),
     # ------------------------------------------------------------------ flux.py
     Frag('flux_table', 'astrodendro/flux.py', 'compute_flux',
          {'input_quantities.unit.is_equivalent(u.Jy)': ('isFnu', 'Bool'),
